@@ -39,6 +39,7 @@ import json, math
 from fractions import Fraction as F
 import common
 from common import enc, dec, encl, decl, err_kind, close
+from props import c10_f64 as F64
 
 ID = "C10"
 RULE = ("lag vectors from reflection coefficients (dyadic: exact regime; tenths |k|<=9/10: float regime), "
@@ -520,6 +521,9 @@ def generate(rng, tier, scale=1):
     cases += _nearsing_cases(rng, (120 if q else 4000) * scale)
     cases += _complex_cases(rng, (150 if q else 4000) * scale)
     if scale == 1:
+        cases += list(F64.EDGE)
+    cases += F64.cases(rng, (700 if q else 20000) * scale)
+    if scale == 1:
         cases += _hist_exhaustive(tier)
     cases += _hist_cases(rng, (500 if q else 12000) * scale, (2 if q else 12) if scale == 1 else 0)
     return cases
@@ -687,6 +691,8 @@ def impl(c):
     e = c["entry"]
     if e == "history":
         return _impl_history(c)
+    if e == "f64":
+        return F64.impl(c)
     _IMPL.pop(key(c), None)
     vals = _vals(c[_FIELD.get(e, "blk")], c["num"])
     kind = c.get("seq")
@@ -709,6 +715,8 @@ _FIELD = {"levinson": "r", "toeplitz": "vect"}
 def request(c):
     if c["entry"] == "history":
         return {"entry": "history", "calls": [r for r in _HIST.get(key(c), []) if r is not None]}
+    if c["entry"] == "f64":
+        return F64.request(c)
     r = {k: v for k, v in c.items() if k not in ("num", "fam", "seq", "kw", "via")}
     if isinstance(r.get("ord"), dict):
         r["ord"] = {k: v for k, v in r["ord"].items() if k != "py" or r["ord"]["k"] == "real"}
@@ -949,6 +957,8 @@ def _cov_spec(entry, order, scale):
 def compare(c, io, drv):
     if c["entry"] == "history":
         return _compare_history(c, io, drv)
+    if c["entry"] == "f64":
+        return F64.compare(c, io, drv)
     out = _compare_single(c, io, drv)
     if "arg_modified" in io:
         out.append(("spec", "%s modified its argument: the caller's %s %s became %s" %
@@ -1165,6 +1175,8 @@ def _cmp_gauss(c, io, drv):
 # statistics, shrinking, search
 # ----------------------------------------------------------------------------------------
 def nontrivial(c, io):
+    if c["entry"] == "f64":
+        return F64.nontrivial(c, io)
     if c["entry"] == "history":
         ran = [(s, o) for s, o in zip(io.get("subs", []), io.get("calls", [])) if s is not None]
         return len(ran) >= 2 and any(nontrivial(s, o) for s, o in ran)
@@ -1182,6 +1194,8 @@ def tally(eng, c, io):
     eng.count("entry", e)
     if e == "history":
         return _tally_history(eng, c, io)
+    if e == "f64":
+        return F64.tally(eng, c, io)
     info = _INFO.get(key(c), {})
     eng.count("regime", "%s:%s" % (e, info.get("regime", "?")))
     if info.get("skipped"):
@@ -1264,6 +1278,9 @@ def shrink(c):
     if e == "history":
         yield from _shrink_history(c)
         return
+    if e == "f64":
+        yield from F64.shrink(c)
+        return
     fld = {"levinson": "r", "toeplitz": "vect"}.get(e, "blk")
     xs = c[fld]
     okey = "order" if e in ("levinson", "kautocor", "kcovar", "lpc") else ("max_lag" if e != "toeplitz" else None)
@@ -1313,6 +1330,9 @@ def neighbours(c):
     if e == "history":
         yield from _neighbours_history(c)
         return
+    if e == "f64":
+        yield from F64.neighbours(c)
+        return
     fld = {"levinson": "r", "toeplitz": "vect"}.get(e, "blk")
     xs = c[fld]
     okey = "order" if e in ("levinson", "kautocor", "kcovar", "lpc") else ("max_lag" if e != "toeplitz" else None)
@@ -1335,6 +1355,8 @@ def classify(c, io, drv):
     e = c["entry"]
     if e == "history":
         return _classify_history(c, io, drv)
+    if e == "f64":
+        return F64.classify(c, io, drv)
     if io.get("arg_modified") is not None:
         return "%s:argument-modified" % e
     if "err" in io:
@@ -2060,3 +2082,8 @@ def _neighbours_history(c):
         # one more look at the shared list after everything else
         for extra in ({"fn": "levinson", "order": None}, {"fn": "toeplitz"}, {"fn": "acorr", "max_lag": None}):
             yield dict(c, calls=calls + [dict(extra, arg=0, scribble=False)])
+
+
+def extra_checks(eng):
+    for r in F64.extra_checks(eng):
+        yield r
